@@ -7,7 +7,7 @@ open PgBifrost.TestDecoding
 def colsSp (cs : List Col) : Bytes := cs.flatMap fun c => colBody c ++ [32]
 
 def addCols (res : Res) (ok : Bool) (cs : List Col) : Res :=
-  cs.foldl (fun r c => addCol r ok (cvOfF4 c).1 (cvOfF4 c).2) res
+  cs.foldl (fun r c => addCol r ok (cvOf c).1 (cvOf c).2) res
 
 theorem renderCols_snoc (cs : List Col) (c : Col) :
     renderCols (cs ++ [c]) = 32 :: (colsSp cs ++ colBody c) := by
@@ -43,7 +43,7 @@ theorem loop_cols {msg : Bytes} {ok : Bool} :
     obtain ⟨st1, hR1, he1⟩ := h2 _ rfl
     have hd1 : msg.drop (i + (colBody c).length + 1) = colsSp cs ++ rest := drop_succ (drop_add hm')
     obtain ⟨st2, hR2, he2⟩ := ih (i + (colBody c).length + 1) st1
-      (addCol res ok (cvOfF4 c).1 (cvOfF4 c).2) rest hd1 hR1 (fun d hd => hwf d (by simp [hd]))
+      (addCol res ok (cvOf c).1 (cvOf c).2) rest hd1 hR1 (fun d hd => hwf d (by simp [hd]))
     have hlen : i + (colsSp (c :: cs)).length = i + (colBody c).length + 1 + (colsSp cs).length := by
       simp [colsSp]; omega
     refine ⟨st2, by rw [hlen]; exact hR2, ?_⟩
